@@ -344,7 +344,12 @@ def clock_only_in_inputs(O):
                  "holding the counter is there whenever it is read back")
 def frame_discipline(O):
     from . import C01, dri
-    C01.interpreter_arms(dri.WithRep(O, dri.Rep({"family": "runtime"}, runtime_battery(), runtime_judge)))
+    # confirmed by the run-time battery (no panic, termination) and by the control battery with its literal row expectations
+    from .batteries import control_battery, literal_judge
+
+    def judge(obs, sc):
+        return runtime_judge(obs, sc) or (literal_judge(obs, sc) if sc.expect else None)
+    C01.interpreter_arms(dri.WithRep(O, dri.Rep({"family": "runtime"}, runtime_battery() + [s_ for s_ in control_battery() if s_.max_rows >= 20], judge)))
 
 
 @obligation("C10/generator-not-held", profiles=("dev",),
